@@ -26,9 +26,10 @@ N = {'quick': 120, 'thorough': 1500}
 LEAN_MODULES = ['GnpyProofs.Props.C16']
 THEOREMS = [f'Gnpy.Plan.{t}' for t in (
     'plan_results_pointwise', 'plan_result_context', 'plan_perm', 'plan_leaves_settings', 'copy_leaves_settings',
-    'planCopy_spec', 'planCopy_pointwise', 'effGain_antitone', 'call_unsaturated', 'call_saturated', 'edfa_state_leaks',
-    'shared_differs', 'propagate_unsaturated', 'planShared_eq_planCopy_of_unsaturated', 'plan_leaves_simparams',
-    'cutIndices_order_free', 'cutIndices_ends', 'simparams_leak_example')]
+    'call_spec', 'call_reduced_only_as_needed', 'call_history_free', 'setGain_invariant', 'propagate_settings',
+    'planCopy_spec', 'planCopy_pointwise', 'planShared_results_eq_planCopy',
+    'leaky_effGain_antitone', 'leaky_call_saturated', 'edfa_state_leaks', 'shared_differs',
+    'plan_leaves_simparams', 'cutIndices_order_free', 'cutIndices_ends', 'simparams_leak_example')]
 RULE = ('one PRNG; batch cases (85 %): random mesh of 3-5 ROADM sites + island, generated library, design power 0/2/3 dBm, '
         '2-8 requests of the kinds fixed/auto/hard/autohard/narrow/nopath/constraint/loose/huge/reserved/multislot/dense/'
         'saturating (a +3..5 dB offset comb over the full band that drives amplifiers into their p_max clamp; the number of '
@@ -43,15 +44,16 @@ RULE = ('one PRNG; batch cases (85 %): random mesh of 3-5 ROADM sites + island, 
         'designed line called with 2-6 successive spectra of different total power. Non-trivial: a batch with >= 2 requests '
         'sharing at least one amplifier, or an amplifier sequence with at least one clamped call')
 MODEL_SCOPE = ('modelled: planning as a function (results = map of a per-request computation, slots = fold), the per-request '
-               'deep copy of compute_path_with_disjunction (propagateOnCopy), Edfa.interpol_params persistent clamp '
-               'effective_gain = min(effective_gain, p_max - pin), the process-wide SimParams as part of the settings (World) and the '
+               'deep copy of compute_path_with_disjunction (propagateOnCopy), Edfa.interpol_params clamp from the SET gain '
+               '_effective_gain = min(_set_gain, p_max - pin) (the pre-repair persistent clamp is kept as the counter-model callLeaky), the process-wide SimParams as part of the settings (World) and the '
                'read-only channel selection of the GGN methods (cutIndices). not modelled: what computeOne computes (C11-C14), '
                'Python object identity')
 MANIFEST = {'level_note': 'proof of the pipeline model; run-time aliasing (is every mutable object really copied) is partial: '
                           'correspondence + monitor only'}
 PARTIAL = ['run-time aliasing (whether deepcopy really separates every mutable object reachable from a path, shared library '
            'dicts, class attributes) cannot be a theorem about the functional model: it is carried by the correspondence '
-           'check and the monitor only; theorem edfa_state_leaks shows the property rests on that copy']
+           'check and the monitor only; edfa_state_leaks / shared_differs (about the pre-repair leaky amplifier) show why the copy was '
+           'needed, planShared_results_eq_planCopy that the repaired amplifier no longer depends on it']
 KINDS = ['fixed', 'fixed', 'auto', 'auto', 'hard', 'autohard', 'narrow', 'nopath', 'constraint', 'loose', 'huge', 'reserved',
          'multislot', 'dense', 'saturating', 'saturating', 'saturating']
 NOPATH = ('NO_PATH', 'NO_PATH_WITH_CONSTRAINT', 'NO_FEASIBLE_BAUDRATE_WITH_SPACING', 'NO_COMPUTED_SNR')
@@ -209,11 +211,12 @@ def _snapshot(net):
     rt = {}
     for n in net.nodes():
         if isinstance(n, Edfa):
-            rt[n.uid] = [n.effective_gain, n.delta_p, n.out_voa, n.tilt_target, n.target_pch_out_dbm]
+            rt[n.uid] = [n.effective_gain, getattr(n, '_set_gain', None), n.delta_p, n.out_voa, n.tilt_target, n.target_pch_out_dbm]
         elif isinstance(n, Roadm):
             rt[n.uid] = [dict(n.per_degree_pch_out_dbm), dict(n.ref_pch_in_dbm)]
         elif isinstance(n, Multiband_amplifier):
-            rt[n.uid] = {band: [a.effective_gain, a.delta_p, a.out_voa, a.tilt_target] for band, a in n.amplifiers.items()}
+            rt[n.uid] = {band: [a.effective_gain, getattr(a, '_set_gain', None), a.delta_p, a.out_voa, a.tilt_target]
+                         for band, a in n.amplifiers.items()}
     return batch_g.canon({'json': network_to_json(net), 'rt': rt})
 
 
@@ -560,37 +563,47 @@ def run_edfa(case, drv):
     net = nets_g.build_network(nets_g.line_topo([case['spans']], [case['spans']]), eq)
     amps = sorted([n for n in net.nodes() if isinstance(n, Edfa) and '(N0 -> N1)' in n.uid], key=lambda n: n.uid)
     amp = amps[case['amp'] % len(amps)]
-    g0, pmax = float(amp.effective_gain), float(amp.params.p_max)
+    g0, pmax = float(amp.effective_gain), float(amp.params.p_max)     # the SET gain: what the design left on the amplifier
     shared = copy.deepcopy(amp)     # the object that is called again and again
-    pins, gains, clamped = [], [], 0
+    pins, gains, clamped, hot_then_cold = [], [], 0, 0
+    prev_clamped = False
     for c in case['calls']:
         si = create_input_spectral_information(f_min=191.35e12, f_max=191.35e12 + (c['nch'] + 0.5) * 50e9, roll_off=0.15,
                                                baud_rate=32e9, spacing=50e9, tx_osnr=40, tx_power=float(dbm2watt(c['p_dbm'])))
         pin = 10 * math.log10(float(np.sum(si.pch)) * 1e3)
+        exp = min(g0, pmax - pin)          # set gain, reduced only as far as p_max requires - whatever was computed before
         if c['on_copy']:
             before = shared.effective_gain
             cp = copy.deepcopy(shared)
-            cp(si)
+            cp(copy.deepcopy(si))
             if shared.effective_gain != before:
                 res.fail('copy: calling a deep copy of an amplifier changed the original amplifier\'s effective gain')
-            exp_alone = min(before, pmax - pin)
-            if abs(cp.effective_gain - exp_alone) > 1e-9:
-                res.fail(f'clamp: copy called with {pin:.3f} dBm has gain {cp.effective_gain}, min(gain, p_max - pin) = {exp_alone}')
+            if abs(cp.effective_gain - exp) > 1e-9:
+                res.fail(f'history: a copy of the shared amplifier called with {pin:.3f} dBm total input has gain {cp.effective_gain}; '
+                         f'min(set gain {g0}, p_max {pmax} - pin) = {exp}')
             continue
-        before = shared.effective_gain
+        fresh = copy.deepcopy(amp)          # never called before
+        fresh(copy.deepcopy(si))
         shared(si)
         pins.append(pin)
         gains.append(float(shared.effective_gain))
-        clamped += int(shared.effective_gain < before - 1e-12)
-        exp = min(before, pmax - pin)
-        if abs(shared.effective_gain - exp) > 1e-9:
-            res.fail(f'clamp: amplifier called with {pin:.3f} dBm total input has gain {shared.effective_gain}, '
-                     f'min(previous gain {before}, p_max {pmax} - pin) = {exp}')
+        is_clamped = exp < g0 - 1e-12
+        clamped += int(is_clamped)
+        hot_then_cold += int(prev_clamped and not is_clamped)
+        prev_clamped = is_clamped
+        if abs(shared.effective_gain - exp) > 1e-9 or abs(shared.effective_gain - fresh.effective_gain) > 1e-9:
+            res.fail(f'history: the shared amplifier called with {pin:.3f} dBm total input has gain {shared.effective_gain}; a fresh copy '
+                     f'has {fresh.effective_gain}, min(set gain {g0}, p_max {pmax} - pin) = {exp}')
     if pins:
         m = drv.ask('c16.edfa_seq', eff_gain=f2b(g0), p_max=f2b(pmax), pin_db=fl(pins))
         res.cmp_floats('Edfa.interpol_params.effective_gain', gains, [b2f(x['eff_gain']) for x in m], abs_=1e-9)
+    # settings unchanged: the SET gain of the called object (attribute _set_gain where the implementation keeps one)
+    sg = getattr(shared, '_set_gain', None)
+    if sg is not None and float(sg) != g0:
+        res.fail(f'settings changed: the set gain of the amplifier is {sg} after the calls, it was {g0}')
     if float(amp.effective_gain) != g0:
         res.fail('copy: the network amplifier changed although only copies were called')
+    res.stats['edfa_hot_then_cold_calls'] += hot_then_cold
     res.nontrivial = clamped > 0
     res.stats.update({'edfa_sequences': 1, 'edfa_calls': len(case['calls']), 'edfa_clamped_calls': clamped})
     return res
